@@ -92,6 +92,26 @@ inductive HubBody where
   | plain (body : Body)
   deriving Repr, DecidableEq
 
+/-- what `thub(data, n)` hands back in one arm of its conditional expression -/
+inductive TRet where
+  | mkHub (args : List String)          -- `StreamTeeHub(<args>)`
+  | data                                -- `data` itself
+  deriving Repr, DecidableEq
+
+/-- `thub`: `return <thenR> if isinstance(<test.1>, <test.2>) else <elseR>` -/
+structure ThubBody where
+  test : String × String
+  thenR : TRet
+  elseR : TRet
+  deriving Repr, DecidableEq
+
+/-- statements of `StreamTeeHub.__init__` (locals renamed v0, v1, … in binding order) -/
+inductive HIStmt where
+  | superInit (args : List String)      -- `super(StreamTeeHub, self).__init__(<args>)`
+  | bindSuperIter (v : String)          -- `v = super(StreamTeeHub, self).__iter__()`
+  | setIters (src n : String)           -- `self._iters = list(it.tee(src, n))`
+  deriving Repr, DecidableEq
+
 /-- the regenerated programs -/
 structure Progs where
   take : Body
@@ -110,6 +130,8 @@ structure Progs where
   hubAppend : HubBody
   hubMap : HubBody
   hubFilter : HubBody
+  thub : ThubBody
+  hubInit : List HIStmt
   deriving Repr, DecidableEq
 
 /-! ### meaning of counts -/
@@ -406,6 +428,58 @@ def inPlace (body : Body) (via : Bool) (st : St α) (i : Nat) (c : Cnt) (g : α 
         | .error (.eager e) => some (st'', .err e)
         | .ok it' => some (rebind st'' i k it')
 
+/-! ### `thub` and `StreamTeeHub.__init__` -/
+
+/-- the object under construction by `StreamTeeHub.__init__` -/
+structure HEnv (α : Type) where
+  st : St α
+  data : Option (It α)                  -- `self._data` once `Stream.__init__` has run
+  vars : List (String × It α)
+  iters : Option (List (It α))          -- `self._iters`
+
+/-- `super().__init__(data)` is `mkSrc` (the iterator `Stream(data)._data`; an existing object gives its iterator /
+    one of its uses), `super().__iter__()` is `self._data`, `list(it.tee(v, n))` is `n` times the output of `teeOf` -/
+def execHI : List HIStmt → HEnv α → Src α → Nat → Except String (HEnv α)
+  | [], e, _, _ => .ok e
+  | .superInit args :: r, e, s, n =>
+    if args == ["data"] then
+      match mkSrc e.st s with
+      | .error x => .error x
+      | .ok (st', it) => execHI r { e with st := st', data := some it } s n
+    else .error "unmodelled"
+  | .bindSuperIter v :: r, e, s, n =>
+    match e.data with
+    | none => .error "AttributeError"
+    | some it => execHI r { e with vars := (v, it) :: e.vars } s n
+  | .setIters v k :: r, e, s, n =>
+    if k == "n" then
+      match lookupVar v e.vars with
+      | none => .error "NameError"
+      | some it =>
+        let ht := teeOf e.st.heap it
+        execHI r { e with st := ⟨ht.1, e.st.pool⟩, iters := some (List.replicate n ht.2) } s n
+    else .error "unmodelled"
+
+/-- `StreamTeeHub(data, n)` as the program of `__init__` says: the new hub is appended to the pool -/
+def hubInitP (body : List HIStmt) (st : St α) (s : Src α) (n : Nat) : Option (St α × Obs α) :=
+  match execHI body ⟨st, none, [], none⟩ s n with
+  | .error x => some (st, .err x)
+  | .ok e =>
+    match e.iters with
+    | none => some (st, .err "unmodelled")
+    | some us => some (⟨e.st.heap, e.st.pool ++ [.hub us]⟩, .new e.st.pool.length)
+
+/-- `thub(data, n)` as its program says; `isinstance(data, Iterable)` is false exactly for `Src.const` -/
+def thubP (P : Progs) (st : St α) (s : Src α) (n : Nat) : Option (St α × Obs α) :=
+  if P.thub.test == ("data", "Iterable") then
+    match (match s with | .const _ => P.thub.elseR | _ => P.thub.thenR) with
+    | .data =>
+      match s with
+      | .const v => some (st, .const v)
+      | _ => some (st, .err "unmodelled")                    -- an iterable handed back as it is: not in the model
+    | .mkHub args => if args == ["data", "n"] then hubInitP P.hubInit st s n else some (st, .err "unmodelled")
+  else some (st, .err "unmodelled")
+
 def stepP (P : Progs) (f : Nat) (st : St α) : Op α → Option (St α × Obs α)
   | .take i c =>
     match st.pool[i]? with
@@ -453,7 +527,8 @@ def stepP (P : Progs) (f : Nat) (st : St α) : Op α → Option (St α × Obs α
       | .ok (h1, d, b) => some (⟨h1, st.pool.set i (.hub (d :: us)) ++ [.stream b]⟩, .new st.pool.length)
     | some (.hub []) => some (st, .err (popErrP P.hubIter))
     | _ => some (st, .err "noobj")
-  -- the constructor, `next(iter(x))`, `list(x)`, `thub`, `tee`: not under the translator
+  | .thub s n => thubP P st s n
+  -- the constructor, `next(iter(x))`, `list(x)`, `tee`: not under the translator
   | op => step f st op
 
 /-- a whole history run by the programs (the `run` of the history model with `stepP P` for `step`) -/
@@ -485,7 +560,9 @@ def sigModel : List (String × List (String × Option String)) := [
   ("StreamTeeHub.skip", [("self", none), ("n", none)]),
   ("StreamTeeHub.append", [("self", none), ("*other", none)]),
   ("StreamTeeHub.map", [("self", none), ("func", none)]),
-  ("StreamTeeHub.filter", [("self", none), ("func", none)])]
+  ("StreamTeeHub.filter", [("self", none), ("func", none)]),
+  ("StreamTeeHub.__init__", [("self", none), ("data", none), ("n", none)]),
+  ("thub", [("data", none), ("n", none)])]
 
 /-- the default of parameter `p` of `q`: `none` = no such parameter, `some none` = required -/
 def sigDefault (sigs : List (String × List (String × Option String))) (q p : String) : Option (Option String) :=
